@@ -156,7 +156,7 @@ impl Prop for C19 {
     }
 
     fn explore(&self, ctx: &Ctx, findings: &Findings, ev: &mut Evidence) -> Result<(), String> {
-        let full = ctx.tier == Tier::Thorough;
+        let full = true; // the full grid (every k in 8..=254) costs ~10 s: both tiers use it, thorough adds random operands
         let mut g = ops::grid(full);
         let mut rng = SplitMix(ctx.seed);
         for _ in 0..ctx.tier.pick(4, 16) {
